@@ -14,6 +14,20 @@ T = {
  "C09-2": ("C09", "tag of a unit enum variant is no longer checked by the derived decoder", "unit variant with #[cbor(tag(N))] and an input with a different or missing tag", ["C09"], "negative-cases: [0, 3({})] returned Enum(0) although the tag is wrong"),
  "C10-1": ("C10", "derived encoder: empty body of a unit variant follows the enum's encoding instead of the variant's override", "unit variant with a variant-level #[cbor(map)]/#[cbor(array)] differing from the enum; later turned into a struct/tuple variant with optional fields", ["C08", "C10"], "C08 wire-format (wrote [0, 2([])] for a map-encoded unit variant); C10 version-pairs after the override-unit-variant pairs were added to the compatibility family (missed before)"),
  "C10-2": ("C10", "derived decoder, definite array: loop bounded by min(len, highest known index + 1), surplus elements stay unconsumed", "array encoding, writer has non-nil optional fields above the reader's highest index", ["C10", "C09"], "version-pairs: decoded the right value but consumed fewer bytes than the item"),
+ "C03-1": ("C03", "Encoder::i64: negatives that fit i32 go through self.i32, everything else gets the 8-byte head", "i64 in -2^32 ..= -2^31-1", ["C03"], "encoder-methods (lattice): wrote 3b.. instead of 3a.."),
+ "C03-2": ("C03", "MapIter: exact = up.is_some() instead of Some(low) == up", "iterator with a bounded but inexact size_hint (filter over a slice)", ["C03"], "builtin-encode-impls: MapIter(inexact) wrote a definite header with the lower bound and no break"),
+ "C05-1": ("C05", "type_of 0x3b arm: peek < 0x80 became <= 0x80", "8-byte negative whose first argument byte is exactly 0x80 (i64::MIN - 1 ...)", ["C05", "C11"], "sign-width-argument: datatype() reports I64 but i64() rejects 3b 80 00.."),
+ "C05-2": ("C05", "Decoder::i32 0x3a arm: hand-written bound check off by one followed by a wrapping cast", "argument 0x8000_0000 at the 4-byte negative width (-2147483649)", ["C05"], "sign-width-argument: i32() returned 2147483647 for -2147483649"),
+ "C07-1": ("C07", "CborLen for i64 uses unsigned_abs() instead of -1 - x", "i64 values -24, -256, -65536, -2^32", ["C07"], "builtin-types / integer-width-tables: len() = 2 but 1 byte written"),
+ "C07-2": ("C07", "derived CborLen, array encoding, enum-variant code path: the pending tag bytes of nil fields are never added", "enum variant in array encoding with a tagged None field below a present field", ["C07"], "derived-types after the G-twin family (every tagged layout replicated as tuple struct and as named / tuple enum variant) was added; missed before: tags on fields existed only in named structs"),
+ "C08-1": ("C08", "derived encoder: unit variant body follows the enum's encoding instead of the variant override", "unit variant with a variant-level #[cbor(map)]/#[cbor(array)] differing from the enum's", ["C08", "C10"], "wire-format: wrote [0, 2([])] where the format is [0, 2({})]"),
+ "C08-2": ("C08", "attrs.rs: merging decode_with into a stored encode_with drops an already attached is_nil", "attribute order encode_with, is_nil, ..., decode_with on a non-Option field whose custom is_nil is true", ["C08", "C07"], "wire-format after the attribute-order variants of the custom codec (NilU8FnsB/C/D) were added; missed before: only one attribute order was generated"),
+ "C11-1": ("C11", "type_of 0x3b arm: first argument byte 0x80 classified as I64", "Int just below i64::MIN (3b 80 ..)", ["C11", "C05"], "token-sequences: tokenising the encoded tokens failed"),
+ "C11-2": ("C11", "Encoder::type_len: 4-byte range ends at 0x7fff_ffff", "array/map/tag/bytes/string head with an argument in 2^31 ..= 2^32-1", ["C03", "C11"], "C03 encoder-methods (lattice) caught it at once; C11 only after boundary arguments 0x7fffffff / 0x80000000 / 0xffffffff were added to the token alphabet and lattice tag items to the item sequences"),
+ "C12-1": ("C12", "Encoder::f16 early-out to zero below half::MIN_POSITIVE (smallest normal)", "0 < |x| < 2^-14 (all half subnormals)", ["C12"], "half-items: a half-representable value was written as f9 0000"),
+ "C12-2": ("C12", "Decoder::f16 fast path treats the largest subnormal as a normal", "exactly f9 03 ff and f9 83 ff", ["C12"], "half-items: f16()/f32()/f64() differ from the value the pattern denotes"),
+ "C13-1": ("C13", "Cursor<[u8; N]>::write_all advances the position before the bounds check", "a rejected write on the fixed-array cursor", ["C13"], "values-capacities-sinks and write_all-sequences: position 1 after a rejected write into capacity 0"),
+ "C13-2": ("C13", "Writer<W: io::Write>::write_all calls write() once and ignores short writes", "an io::Write that accepts fewer bytes than offered", ["C13"], "values-capacities-sinks: success reported into a sink of capacity 0"),
  "C15-1": ("C15", "AsyncReader: length-prefix progress kept in locals across awaits", "prefix delivered in >= 2 pieces with a Pending + drop or a transient error in between", ["C15"], "poll-drop-schedules: result #0 InvalidLen / UnexpectedEof instead of the value"),
  "C15-2": ("C15", "AsyncReader: EOF at payload offset 0 reported as a clean end", "stream ends exactly after a complete prefix announcing a non-empty payload", ["C15"], "poll-drop-schedules: CleanEnd where the model expects UnexpectedEof"),
 }
